@@ -163,3 +163,65 @@ pub struct ReceiverStats {
     /// complete FDT instances kept
     pub fdt_current: usize,
 }
+
+/// Build an OTI with explicit scheme-specific values (the scheme-specific types
+/// are not exported by the crate). `z`, `n`, `al` are Z, N, Al for RaptorQ (6)
+/// and Raptor (1), and `m`, `g`, unused for Reed Solomon GF(2^m) (2).
+pub fn oti_with_scheme(
+    fec_encoding_id: oti::FECEncodingID,
+    encoding_symbol_length: u16,
+    maximum_source_block_length: u32,
+    max_number_of_parity_symbols: u32,
+    z: u16,
+    n: u16,
+    al: u8,
+    inband_fti: bool,
+) -> oti::Oti {
+    let scheme_specific = match fec_encoding_id {
+        oti::FECEncodingID::RaptorQ => Some(oti::SchemeSpecific::RaptorQ(
+            oti::RaptorQSchemeSpecific {
+                source_blocks_length: z as u8,
+                sub_blocks_length: n,
+                symbol_alignment: al,
+            },
+        )),
+        oti::FECEncodingID::Raptor => Some(oti::SchemeSpecific::Raptor(oti::RaptorSchemeSpecific {
+            source_blocks_length: z,
+            sub_blocks_length: n as u8,
+            symbol_alignment: al,
+        })),
+        oti::FECEncodingID::ReedSolomonGF2M => Some(oti::SchemeSpecific::ReedSolomon(
+            oti::ReedSolomonGF2MSchemeSpecific {
+                m: z as u8,
+                g: n as u8,
+            },
+        )),
+        _ => None,
+    };
+    oti::Oti {
+        fec_encoding_id,
+        fec_instance_id: 0,
+        maximum_source_block_length,
+        encoding_symbol_length,
+        max_number_of_parity_symbols,
+        scheme_specific,
+        inband_fti,
+    }
+}
+
+/// Scheme-specific values of an OTI as (Z, N, Al) (RaptorQ, Raptor) or (m, G, 0)
+pub fn oti_scheme(oti: &oti::Oti) -> Option<(u32, u32, u32)> {
+    match oti.scheme_specific.as_ref()? {
+        oti::SchemeSpecific::RaptorQ(s) => Some((
+            s.source_blocks_length as u32,
+            s.sub_blocks_length as u32,
+            s.symbol_alignment as u32,
+        )),
+        oti::SchemeSpecific::Raptor(s) => Some((
+            s.source_blocks_length as u32,
+            s.sub_blocks_length as u32,
+            s.symbol_alignment as u32,
+        )),
+        oti::SchemeSpecific::ReedSolomon(s) => Some((s.m as u32, s.g as u32, 0)),
+    }
+}
